@@ -385,7 +385,13 @@ pub fn c16(buf: &[u8], storage: bool) -> CheckResult {
     };
     let b2 = guard(|| m.as_bytes()).map_err(|p| Violation::from_panic(&format!("as_bytes of parsed message {}", short_dbg(&m)), &p))?;
     let s = if storage { 16 } else { 0 };
-    let declared = guard(|| m.header.overall_length() as usize).map_err(|p| Violation::from_panic("overall_length of parsed message", &p))?;
+    // the premise is read off the re-serialised bytes themselves: "has the length its own header declares" = the
+    // 16-bit length field the writer emitted equals the number of bytes it emitted (on a writer that copies the
+    // message's declared length into that field this is the same as comparing with m.header.overall_length())
+    if b2.len() < s + 4 {
+        return Ok(Pass::new(false).class("reserialisation-has-other-length"));
+    }
+    let declared = u16::from_be_bytes([b2[s + 2], b2[s + 3]]) as usize;
     if b2.len() != s + declared {
         return Ok(Pass::new(false).class("reserialisation-has-other-length"));
     }
